@@ -20,7 +20,7 @@ RULE = ("part 'history': random histories over log / add_destinations(1-3 new de
         "(length <= 40, a share with 1001-1100 messages logged before the first add), each in a fresh process, compared with a 30-line "
         "sequential reference model that predicts every destination's exact tape (buffered messages once, in order, ahead of later "
         "ones, only to the destinations of the first add; later destinations only later messages; nothing after removal; global "
-        "fields set before delivery present); half of the never-removed destinations are distinct objects that compare equal; in a quarter of the histories the wall clock "
+        "fields set before delivery present); half of the never-removed destinations are distinct objects that compare equal, some unregister themselves while they handle their first message; in a quarter of the histories the wall clock "
         "steps backwards by ten minutes every 2-5 readings. part 'handover': 1-2 logger threads emit uniquely numbered messages (some inside an "
         "action) while another thread performs the first add_destinations, each schedule in a fresh process under the line-granular "
         "scheduler with LINE events on eliot/_output.py: for every priority order ALL one-preemption schedules plus sampled "
@@ -111,8 +111,16 @@ def run_history(ops):
         def __call__(self, m):
             tapes[self.i].append(dict(m))
 
+    one_shot = set(i for i in never_removed if i % 5 == 3)  # destinations that unregister themselves while handling their first message
+
     def make(i):
         tapes[i] = []
+        if i in one_shot:
+            def once(m, i=i):
+                tapes[i].append(dict(m))
+                remove_destination(dests[i])
+            dests[i] = once
+            return once
         if i in never_removed and i % 2 == 0:
             # (only destinations that are never removed: removal finds a destination by equality)
             dests[i] = EqDest(i)
@@ -139,8 +147,10 @@ def run_history(ops):
                 m_buffer.append(n[0])
                 del m_buffer[:-1000]
             else:
-                for d in m_dests:
+                for d in list(m_dests):
                     expected[d].append(rec)
+                    if d in one_shot:
+                        m_dests.remove(d)
 
     for op in ops:
         if op[0] == "strict_warnings":
@@ -178,8 +188,10 @@ def run_history(ops):
                 m_buffer.append(n[0])
                 del m_buffer[:-1000]
             else:
-                for d in m_dests:
+                for d in list(m_dests):
                     expected[d].append(rec)
+                    if d in one_shot:
+                        m_dests.remove(d)
         elif op[0] == "add":
             new = [make(i) for i in op[1]]
             for i in op[1]:
@@ -190,7 +202,10 @@ def run_history(ops):
                 m_any = True
                 for k in m_buffer:
                     for i in op[1]:
-                        expected[i].append((k, dict(m_globals)))
+                        if i in m_dests:
+                            expected[i].append((k, dict(m_globals)))
+                            if i in one_shot:
+                                m_dests.remove(i)
                 m_buffer = []
         elif op[0] == "remove":
             remove_destination(dests[op[1]])
